@@ -29,14 +29,14 @@ import os
 import sys
 import time
 
-from fakelib import log, read_fasta
+from fakelib import log, read_fasta, wait_gate
 
 VALUE_OPTS = {
     "tantan": {"-m", "-x"},
     "rnafold": {"-T"},
     "rnaplot": {"-i", "--output-format", "-t"},
     "rnaalifold": {"-T"},
-    "dssp": {"-i", "-o"},
+    "dssp": {"-i", "-o", "--output-format"},
 }
 
 THREE_TO_ONE = {
@@ -67,14 +67,6 @@ def parse_args(personality, argv):
             positional.append(a)
             i += 1
     return opts, flags, positional
-
-
-def wait_gate(ctl):
-    gate = ctl.get("gate")
-    if gate:
-        t_end = time.monotonic() + float(ctl.get("gate_max", 240.0))
-        while not os.path.exists(gate) and time.monotonic() < t_end:
-            time.sleep(0.01)
 
 
 def wrap(text, width):
